@@ -64,6 +64,8 @@ def _env():
             self.tag = tag
 
         def process_response(self, return_value):
+            if self.tag == 'Z0':
+                return []                    # a processor whose result is falsy
             if isinstance(return_value, list):
                 return return_value + [self.tag]
             return [return_value, self.tag]          # a raw response object: wrapped by the first processor
@@ -101,6 +103,11 @@ def _env():
     return _ENV
 
 
+def _cred(x):
+    """the spec's login names with a character outside ASCII but inside latin-1 (the header carries utf-8)"""
+    return {'joe': 'jo\u00e9', 'cid': 'c\u00efd'}.get(x, x)
+
+
 def _adapter(a):
     e = _env()
     ch = e['ch']
@@ -112,11 +119,11 @@ def _adapter(a):
     if k == 'hdr':
         return e['HdrAdapter'](a['name'], a['val'])
     if k == 'basic':
-        return ch.BAuthConn.Adapter(a['user'], a['pw'])
+        return ch.BAuthConn.Adapter(_cred(a['user']), a['pw'])
     if k == 'token':
         return ch.TokenAuthConn.Adapter(a['tok'])
     if k == 'client':
-        return ch.ClientAuthConn.Adapter('cname', a['user'], a['pw'])
+        return ch.ClientAuthConn.Adapter('cname', _cred(a['user']), a['pw'])
     raise ValueError(k)
 
 
@@ -159,8 +166,8 @@ def _check_request(req, ret, exp, params, hdr_in, raw_trailing=False):
                 cred = base64.b64decode(v[6:]).decode('utf-8')
             except Exception:
                 return 'Authorization %r does not decode' % v
-            if cred != '%s:%s' % (a['user'], a['pw']):
-                return 'Authorization decodes to %r, configured credentials are %r' % (cred, '%s:%s' % (a['user'], a['pw']))
+            if cred != '%s:%s' % (_cred(a['user']), a['pw']):
+                return 'Authorization decodes to %r, configured credentials are %r' % (cred, '%s:%s' % (_cred(a['user']), a['pw']))
     for name, val in exp['hdrs']:
         if h.get(name.lower()) != val:
             return 'header %s of an adapter in the chain is %r, expected %r' % (name, h.get(name.lower()), val)
@@ -221,10 +228,14 @@ def replay_history(hist):
             raw = conn.get('/x', raw_response=True)
         except Exception as ex:
             return '%s: probe request with raw_response=True raised %s: %s' % (where, type(ex).__name__, str(ex)[:100])
-        tags_seen = raw[1:] if isinstance(raw, list) else []
-        obj = raw[0] if isinstance(raw, list) and raw else raw
-        if not isinstance(obj, _Resp) or tags_seen != list(exp['resp']):
-            return '%s: raw_response=True gives %r, expected the response object processed by %s' % (where, raw, list(exp['resp']))
+        if exp.get('respcut'):
+            if raw != list(exp['resp']):
+                return '%s: raw_response=True gives %r, expected %s (a processor replaces the value by [])' % (where, raw, list(exp['resp']))
+        else:
+            tags_seen = raw[1:] if isinstance(raw, list) else []
+            obj = raw[0] if isinstance(raw, list) and raw else raw
+            if not isinstance(obj, _Resp) or tags_seen != list(exp['resp']):
+                return '%s: raw_response=True gives %r, expected the response object processed by %s' % (where, raw, list(exp['resp']))
         # the same through a request path without a leading '/'
         try:
             conn.get('x')
@@ -260,11 +271,11 @@ def replay_history(hist):
                 a = st['auth']
                 p = conns[st['parent'] - 1]
                 if a['k'] == 'basic':
-                    conns.append(ch.BAuthConn(p, a['user'], a['pw']))
+                    conns.append(ch.BAuthConn(p, _cred(a['user']), a['pw']))
                 elif a['k'] == 'token':
                     conns.append(ch.TokenAuthConn(p, a['tok'], 'descr'))
                 else:
-                    conns.append(ch.ClientAuthConn(p, 'cname', a['user'], a['pw']))
+                    conns.append(ch.ClientAuthConn(p, 'cname', _cred(a['user']), a['pw']))
             elif op == 'newcaller':
                 callers.append(e['Caller'](conns[st['conn'] - 1]))
                 if st['wrapped']:
